@@ -352,15 +352,25 @@ KNOWN = {
 
 
 def replay(ctx, payload):
+    import copy
     c = payload["violation"]["case"]
-    d = datetime.datetime.fromisoformat(c["default"]) if c.get("default") else datetime.datetime(2003, 9, 25)
+    base = L.call_from_case(c)
+    def variant(**kw):
+        x = copy.copy(base)
+        x.fuzzy = x.fwt = x.ignoretz = False
+        for k, v in kw.items():
+            setattr(x, k, v)
+        return x
     prev = L.set_tz(c.get("TZ") or "UTC")
     try:
-        a1, _, _ = L.run_impl(L.Call(c["text"], default=d))
-        a2, _, _ = L.run_impl(L.Call(c["text"], default=d, fuzzy=True))
-        a3, _, _ = L.run_impl(L.Call(c["text"], default=d, fwt=True))
-        a4, _, _ = L.run_impl(L.Call(c["text"], default=d, ignoretz=True))
+        a0, _, _ = L.run_impl(base)
+        a1, _, _ = L.run_impl(variant())
+        a2, _, _ = L.run_impl(variant(fuzzy=True))
+        a3, _, _ = L.run_impl(variant(fwt=True))
+        a4, _, _ = L.run_impl(variant(ignoretz=True))
+        m = L.model_answers(ctx, [base])[0]
     finally:
         L.set_tz(prev)
-    print("parse(%s): strict=%s fuzzy=%s fuzzy_with_tokens=%s ignoretz=%s" % (ascii(c["text"]), a1, a2, a3, a4))
-    return (not a1.startswith("ok ")) or a1 == a2
+    print("parse(%s) [tzinfos=%s parserinfo=%s TZ=%s]: as recorded=%s model=%s | strict=%s fuzzy=%s fuzzy_with_tokens=%s ignoretz=%s"
+          % (ascii(c["text"]), c.get("tzinfos"), c.get("parserinfo"), c.get("TZ"), a0, m, a1, a2, a3, a4))
+    return ((not a1.startswith("ok ")) or a1 == a2) and a0 == m
